@@ -28,7 +28,7 @@ NS_SETTINGS = 'esri="http://esri.com/xforms" kb="http://kobotoolbox.org/xforms"'
 def plan(tier, seed):
     n = 1600 if tier == "quick" else 24000
     return {"shards": 16, "timeout": 900 if tier == "quick" else 3000, "n": n,
-            "floors": {"parsed_outputs": n // 2, "distinct": 50, "hostile_name_cases": 40}}
+            "floors": {"suite_conversions_judged": 500, "parsed_outputs": n // 2, "distinct": 50, "hostile_name_cases": 40}}
 
 
 def make_form(rng, i, klass):
